@@ -382,6 +382,7 @@ def _cond_eval(n, val):
 def extend_rule(rep, fns):
     """V7: extend_row_impl writes result row i from the documented source for each of the three regions of i, per policy;
     extend_row/extend_col/extend_boundary size the result and delegate as documented"""
+    rep.rule("V7b extend_row_impl: the copies of an edge row (row 0 below, row h-1 above the source) are dominated by source.height() > 0: an empty source has no edge row")
     rep.rule("V7 extend_row_impl: for every result row i in [0, result.height()): c <= i < c+h -> source row i-c (all policies); extend_constant: i < c -> row 0, "
              "i >= c+h -> row h-1; extend_zero: the other rows are filled with the zero pixel over the full width; extend_padded: row i of the source shifted up by c. "
              "The path condition of every row copy is evaluated on the three regions of i (below, inside, above) as a boolean function. "
@@ -415,6 +416,7 @@ def extend_rule(rep, fns):
                 return {"<": sg < 0, "<=": sg <= 0, ">": sg > 0, ">=": sg >= 0, "==": sg == 0, "!=": sg != 0}[op]
             return val
         copies = []
+        edge_unguarded = []
         for c, pth in R.calls_in(f["body"], lambda n: n.endswith("assign_pixels") or n in ("std::fill_n", "std::fill")):
             opts = [(op, l, r) for op, l, r in R.guards(pth) if opt in (l, r)]
             loops = [a for a, fld, _ in pth if a.get("k") == "For" and fld == "body"]
@@ -446,6 +448,12 @@ def extend_rule(rep, fns):
                 prob.append("%s runs for the rows %s of (sign(i-c), sign(i-c-h)): not a union of the regions below / inside / above" % (R.key(c)[:50], hit))
             policy = [(l if r == opt else r).split("::")[-1] for op, l, r in opts if op == "=="]
             copies.append((policy[-1] if policy else "?", R.key(c).replace(iv, "#"), frozenset(regions)))
+            # V7b: below and above the source there is an edge row to repeat only if the source has rows at all (the regions are consistent with h >= 0, not with h >= 1)
+            if regions and regions <= {"lo", "hi"} and (c.get("callee") or {}).get("name", "").endswith("assign_pixels") and sv + ".row_begin(" in R.key(c):
+                gs = R.guards(pth)
+                has_rows = any((op in ("!=", ">") and l == H and r == "0") or (op == ">=" and l == H and r == "1") or (op == "<" and l == "0" and r == H) for op, l, r in gs)
+                if not has_rows:
+                    edge_unguarded.append(R.key(c).replace(iv, "#")[:90])
         WIN = "subimage_view(%s,0,(-%s),%s.width(),(%s + (2 * %s)))" % (sv, c_, sv, H, c_)
         want = {
             "extend_constant": {("assign_pixels(%s.row_begin((# - %s)),%s.row_end((# - %s)),%s.row_begin(#))" % (sv, c_, sv, c_, rv), frozenset(["mid"])),
@@ -472,6 +480,14 @@ def extend_rule(rep, fns):
         if zenv is not None and zero != ["pixel_zeros_t{}(%s)" % zenv]:
             prob.append("the fill value %s is not the zero pixel: %s" % (zenv, zero))
         key = "V7:extend_row_impl<%s>" % ("rotated" if "step" in tag or "transposed" in tag.lower() else "plain")
+        rep.count("obligations:V7b")
+        kb = key.replace("V7:", "V7b:") + ":edge rows exist"
+        if edge_unguarded:
+            rep.violation("V7b-edge-row", kb, R.fn_where(f0), {"copies of an edge row not dominated by source.height() > 0": edge_unguarded,
+                          "example": "extend_row(subimage_view(v, 0, 2, 3, 0), 1, boundary_option::extend_constant): row 0 of a view without rows is read (heap-buffer-overflow READ); "
+                                     "extend_col of a 0 x h view: the same through the rotated view, division by the zero row stride"})
+        else:
+            rep.ok("V7b-edge-row", kb, "every copy of row 0 / row h-1 is reached only with h > 0")
         if prob:
             rep.violation("V7-extend", key, R.fn_where(f0), {"problems": prob + unknown})
         elif unknown:
@@ -515,6 +531,7 @@ def extend_rule(rep, fns):
         else:
             rep.violation("V7-extend", k, R.fn_where(f0), det)
     rep.floor("obligations:V7", 5)
+    rep.floor("obligations:V7b", 2)
 
 
 def kernel_2d_rule(rep, fns):
